@@ -161,14 +161,12 @@ Reopen ==
   /\ did' = [did EXCEPT !.reopen = TRUE]
   /\ UNCHANGED <<com, work, phase, bnd, wb, lastCompact, gone, cnt>>
 
-Next == \/ Begin
-        \/ \E b \in 1..Len(bnd) : Rewind(b)
-        \/ AppendLeaf(NewData)
-        \/ \E i \in 1..NL(work) : Remove(i)
-        \/ Commit
-        \/ Discard
-        \/ \E b \in 1..Len(bnd) : Compact(b)
-        \/ Reopen
+DoRewind  == \E b \in 1..Len(bnd) : Rewind(b)
+DoAppend  == AppendLeaf(NewData)
+DoRemove  == \E i \in 1..NL(work) : Remove(i)
+DoCompact == \E b \in 1..Len(bnd) : Compact(b)
+
+Next == Begin \/ DoRewind \/ DoAppend \/ DoRemove \/ Commit \/ Discard \/ DoCompact \/ Reopen
 
 Spec == Init /\ [][Next]_vars
 
@@ -210,6 +208,9 @@ FormsOK ==
 OrderedRemoves ==
   (phase = "open" /\ phase' = "open" /\ work'.removed # work.removed /\ cnt'.rew = cnt.rew) =>
      \A i \in work'.removed \ work.removed : \A j \in work.removed \ bnd[wb].removed : j < i
+
+\* second reduction: within a unit all appends come before the removals
+AppendsFirst == (phase = "open" /\ phase' = "open" /\ NL(work') > NL(work)) => cnt.rems = 0
 
 \* the reference's proofs verify against the reference's root (transcribed verifier of MMR.tla)
 ProofsVerify ==
